@@ -799,10 +799,10 @@ Definition own0 : env := fun _ => None.
 Definition base0 : bases := fun _ => 0.
 Definition a0 : sacc := mkS2 0 0 (aempty None).
 
-Lemma Inv_fresh d : Inv (fresh false false d) a0 own0 base0.
+Lemma Inv_fresh k d : Inv (fresh k false false d) a0 own0 base0.
 Proof.
   split; [|split; reflexivity].
-  assert (Hc : forall w, cnt w (fresh false false d) = 0) by (intros []; reflexivity).
+  assert (Hc : forall w, cnt w (fresh k false false d) = 0) by (intros []; reflexivity).
   constructor; cbn [fresh nloc ncons npatch mown log a0 snloc sncons sown]; intros; try reflexivity.
   - rewrite Hc. unfold base0. destruct w; cbn; lia.
   - rewrite Hc in H. lia.
@@ -813,8 +813,8 @@ Proof.
   - intros e [].
 Qed.
 
-Lemma root_inv p s :
-  emit_root p = Ok s ->
+Lemma root_inv k p s :
+  emit_root k p = Ok s ->
   Inv s (sp_root p) own0 base0 /\ bcnt s = 0 /\ ccnt s = 0.
 Proof.
   intro H. unfold emit_root in H.
@@ -823,7 +823,7 @@ Proof.
     apply bind_ok in H1. destruct H1 as (s2 & Hl & H1). apply leaf_ok in Hl. destruct Hl as (E2 & B2 & C2 & _).
     apply bind_ok in H1. destruct H1 as (s3 & Hp & Hl). apply leaf_ok in Hl. destruct Hl as (E3 & B3 & C3 & _).
     assert (I2 : Inv s2 a0 own0 base0).
-    { apply (Inv_eqv (fresh false false max_depth) s2); [exact (eqv_trans _ _ _ E E2)|congruence|congruence|apply Inv_fresh]. }
+    { apply (Inv_eqv (fresh k false false max_depth) s2); [exact (eqv_trans _ _ _ E E2)|congruence|congruence|apply Inv_fresh]. }
     destruct (proj2 emit_inv p s2 a0 own0 base0 s3 I2 Hp) as (I3 & F3).
     split.
     + eapply Inv_eqv; [exact E3|exact B3|exact C3|exact I3].
@@ -844,9 +844,10 @@ Qed.
 Theorem kcompile_owners p l :
   kcompile p = KOk l -> l = map (fun o => (o, 1)) (kspec p).
 Proof.
-  unfold kcompile, kspec. destruct (emit_root p) as [s|e] eqn:E; [|discriminate].
+  unfold kcompile, kspec. destruct (emit_root true p) as [s0|e0]; [|discriminate].
+  destruct (emit_root false p) as [s|e] eqn:E; [|discriminate].
   intro H. injection H as <-.
-  destruct (root_inv p s E) as ((I & _ & _) & Hb & Hc).
+  destruct (root_inv false p s E) as ((I & _ & _) & Hb & Hc).
   rewrite <- (i_nloc _ _ _ _ I).
   apply owners_spec. intros loc Hl. rewrite N2Nat.id in Hl.
   destruct (i_res _ _ _ _ I loc) as [(w & i & P1 & _)|R]; [lia| |exact R].
@@ -854,13 +855,13 @@ Proof.
 Qed.
 
 (* the tables stay within their limits, no null slot is ever patched, both counts are back at 0 *)
-Theorem tables_bounded p s :
-  emit_root p = Ok s ->
+Theorem tables_bounded k p s :
+  emit_root k p = Ok s ->
   (forall w i loc, In (EvWrite w i loc) (log s) -> i < lim w)
   /\ (forall w i l o, In (EvPatch w i l o) (log s) -> i < lim w /\ l <> None)
   /\ bcnt s = 0 /\ ccnt s = 0.
 Proof.
-  intro E. destruct (root_inv p s E) as ((I & _ & _) & Hb & Hc).
+  intro E. destruct (root_inv k p s E) as ((I & _ & _) & Hb & Hc).
   pose proof (i_log _ _ _ _ I) as G.
   split; [|split; [|split; assumption]].
   - intros w i loc Hin. apply (G _ Hin).
